@@ -106,6 +106,8 @@ def check_verified(res, facts):
                 continue
             if names & {"new"} and not (names & {"pow", "mul", "square", "inverse"}) and fn.kind == "Closure" and len(fn.bbs) <= 3:
                 continue   # delegating closures (c1 = 0 arm): R-DELEGATE
+            if fn.kind != "Closure" and "new" in names and "sqrt" in names and names - set(DF.TRANSPARENT) <= {"new", "sqrt", "div", "branch", "from_residual", "from_output"}:
+                continue   # the same delegation written in the body (`self.c0.sqrt()?` placed in one coordinate): R-DELEGATE
             if is_verified(fn, dep, payload, guards, inputs):
                 rule.ok(key, "guarded by square(root) == input", fn.loc)
             else:
@@ -239,6 +241,27 @@ def check_delegate(res, facts):
                 tt = fn.bbs[sw]["t"]
                 qr = (succ == tt["else"])
         verdict.append((qr, divides, slot))
+    # the same arms written in the body itself (`let a0 = self.c0.sqrt()?; Some(Self::new(a0, ZERO))`)
+    for bb, t in fn.calls():
+        if t["f"].get("name") != "new" or len(t["args"]) != 2:
+            continue
+        a0, a1 = t["args"]
+        z0 = "k" in a0 and "ZERO" in (a0["k"].get("def") or "")
+        z1 = "k" in a1 and "ZERO" in (a1["k"].get("def") or "")
+        if z0 == z1:
+            continue
+        other = op_local(a1 if z0 else a0)
+        feeding = [c["f"].get("name") for _, c in dep.calls_in_slice([other])] if other is not None else []
+        if "sqrt" not in feeding:
+            continue
+        qr = None
+        for (sw, succ) in transitive_cd(cd, bb):
+            o = fn.bbs[sw]["t"].get("o")
+            l = op_local(o) if o else None
+            if l is not None and any(c["f"].get("name") == "is_qr" for _, c in dep.calls_in_slice([l])):
+                tt = fn.bbs[sw]["t"]
+                qr = (succ == tt["else"])
+        verdict.append((qr, "div" in feeding, "c1" if z0 else "c0"))
     want = {(True, False, "c0"), (False, True, "c1")}
     if set(verdict) == want:
         rule.ok(key, "residue arm: (sqrt(c0), 0); non-residue arm: (0, sqrt(c0/beta))", fn.loc)
